@@ -200,7 +200,7 @@ func (m *Markdown) renderParagraph(w io.Writer, n *ast.Paragraph, src []byte) er
 // renderFencedCodeBlock renders a fenced code block with optional language.
 func (m *Markdown) renderFencedCodeBlock(w io.Writer, n *ast.FencedCodeBlock, src []byte) error {
 	return m.renderTemplate(w, "code_block", map[string]any{
-		"language": string(n.Language(src)),
+		"language": resolveText(n.Language(src)),
 		"code":     codeBlockContent(n, src),
 	})
 }
